@@ -324,11 +324,13 @@ def main(argv=None):
         if drv is None or any(b["function"] == q for b in bounded):
             continue
         # drivers that explore a whole subsystem give the same answer whatever function asked
-        generic = drv["driver"] not in ("pure.py", "http_explore.py")
+        # (thorough: the HTTP explorer is run once with all its probe groups instead of once per function)
+        generic = drv["driver"] != "pure.py" and (thorough or drv["driver"] != "http_explore.py")
         if generic and drv["driver"] in standin_memo:
             res = standin_memo[drv["driver"]]
         else:
-            res = run_replay(drv["driver"], {"mode": "bounded", "function": q, "seed": seed, "tier": args.tier}, timeout=3600)
+            res = run_replay(drv["driver"], {"mode": "bounded", "function": (q if not generic else "*all*"), "seed": seed, "tier": args.tier},
+                             timeout=3600)
             if generic:
                 standin_memo[drv["driver"]] = res
         b = {"function": q, "driver": drv["driver"], "bound": drv.get("bound", ""), "result": res}
@@ -341,7 +343,13 @@ def main(argv=None):
     for q, drv in sorted(spec.get("bounded_always", {}).items()):
         req = {"mode": "bounded", "function": q, "seed": seed, "tier": args.tier}
         req.update(drv.get("request", {}))
-        res = run_replay(drv["driver"], req, timeout=3600)
+        mk = drv["driver"] if not drv.get("request") else None
+        if mk is not None and mk in standin_memo and drv["driver"] != "pure.py":
+            res = standin_memo[mk]
+        else:
+            res = run_replay(drv["driver"], req, timeout=3600)
+            if mk is not None and thorough:
+                standin_memo[mk] = res
         b = {"function": q, "driver": drv["driver"], "bound": drv.get("bound", ""), "result": res, "not_under_contract": True}
         bounded.append(b)
         if res and res.get("failing"):
